@@ -15,6 +15,9 @@ EXPLICIT = {
     "path-append-all": [("all", "append", b"PATH", b"/extra/bin"), ("all", "delim", b"PATH", b":")],
     "path-override-build": [("build", "override", b"PATH", b"/only")],
     "ldlib-prepend-launch": [("launch", "prepend", b"LD_LIBRARY_PATH", b"/pre"), ("launch", "delim", b"LD_LIBRARY_PATH", b";")],
+    # append / prepend on an implicit-path variable WITHOUT a delimiter file: nothing may be invented on read (or written back)
+    "path-append-nodelim": [("all", "append", b"PATH", b"/extra/bin")],
+    "libs-prepend-nodelim": [("build", "prepend", b"LIBRARY_PATH", b"/pre"), ("launch", "append", b"LD_LIBRARY_PATH", b"/post"), ("all", "prepend", b"PKG_CONFIG_PATH", b"/pc")],
     "cpath-default-build+proc": [("build", "default", b"CPATH", b"/dflt"), ("process:web", "override", b"PATH", b"/procpath")],
 }
 STARTS = [{}, {b"PATH": b"/usr/bin", b"LD_LIBRARY_PATH": b"", b"CPATH": b"c"},
